@@ -208,6 +208,14 @@ def plan(prop, tier):
         fams = [(n, c, r) for n, (c, r) in F.items() if c["fam"] == own[prop] and not n.endswith("_serr")
                 and not n.startswith("compo_")]
         q = tier == "quick"
+        if not q and prop in ("C08", "C09", "C10"):
+            # thorough only: two members, two data each, four top-level actions, two pulls, failures
+            k_ = own[prop]
+            fams.append((k_ + "2_deep", scen.with_bounds(scen.nary(k_, 2), k_, maxData=2, maxTop=4, maxPull=2,
+                                                         allowFail=True), None))
+        if not q and prop == "C12":
+            fams.append(("share2_deep", scen.with_bounds(scen.share_g("push"), "share", sinks=["probe", "probe"], maxData=2,
+                                                        maxTop=6, maxPull=1, allowFail=True), None))
         if prop == "C08":
             fams.append(("merge2_d2", scen.with_bounds(scen.nary("merge", 2), "merge", maxData=2, maxTop=3 if q else 4,
                                                       maxPull=1, allowFail=False), None))
